@@ -25,23 +25,39 @@ Clauses (field `clause` of a violation):
   raised                  a helper raised on a valid multiplicative quantity
 
 Deviations from DESIGN.md §4/C15 (stated so nobody has to guess):
-  * `dimensionless ... returned unchanged by to_compact` is read as pint's own meaning of
-    the word (the unit `dimensionless` = empty container, code tests `quantity.unitless`).
-    Quantities in radian / percent / m/m are rescaled by to_compact (1500 rad -> 1.5 krad);
-    they are value-checked and counted (`compact_dimensionless_with_units_rescaled`), not
-    alarmed on.
+  * `dimensionless ... returned unchanged by to_compact` is read the way the code decides it
+    (`quantity.unitless`): a quantity whose units cancel to NO root unit (no units at all,
+    m/m, percent, link**-3*minim).  Decided here from the MODEL's root-unit exponents.
+    Dimensionless quantities whose root units survive (radian, bit, count: 1500 B -> 1.5 kB,
+    the main use of to_compact) are rescaled by design; they are value/structure checked and
+    counted (`compact_dimensionless_base_unit_rescaled`), not alarmed on.
   * the [1, 1000) clause is also evaluated for a leading unit with exponent -1 (no numerator
     present): pint takes ceil there and lands in the same interval; the statement's
     "first-power" is read as |exponent| == 1.  Higher powers are only counted against the
     best possible interval [1, 1000**|e|).
+  * to_compact reads unit names through parse_unit_name: `milliarcsecond` and
+    `kilometer_per_second` are defined units that it treats as milli+arcsecond /
+    kilo+meter_per_second.  The structural clause uses the same reading, taken from the MODEL
+    (all prefix+unit(+s) readings, unprefixed twin dropped); more than one reading left = D12.
   * `system-base-unit-left` is not in the statement's text; it is the defining contract of
     to_base_units "in every default system" and the only way a dropped system rule is
     observable through this property.  Silent on the unchanged tree.
+  * under auto_reduce_dimensions the `mergeable-left` clause is applied to results of * and /
+    (also in-place, also with a number on either side) but not to `number / quantity`:
+    __rtruediv__ is not wrapped by ireduce_dimensions, nothing was applied (counted).
   * non-multiplicative units (offset, logarithmic) are run alone (exponent 1); an
     OffsetUnitCalculusError / LogarithmicUnitCalculusError refusal is counted, a returned
-    value is checked with the affine model.
-  * float overflow / underflow inside pint (float or tainted factors beyond 1e+-250) is
-    counted as `skipped_float_range`, never alarmed on.
+    value is checked with the affine model; logarithmic units only in the float registry.
+  * float range.  pint multiplies scale**exponent leaf by leaf through the definition chains of
+    source and destination; with Planck / atomic units at |exponent| up to 10 the partial
+    products leave the normal float range (OverflowError, ZeroDivisionError, Fraction('inf'),
+    log10(0), results 0.0 / inf, and - observed - a silent 1.2e-3 relative error with
+    bohr**-8).  `Oracle.stress` bounds that excursion from the MODEL (sum of
+    |exponent*log10(scale)| over every leaf of source and destination, plus |log10 x|); above
+    290 decades a float-typed outcome is counted as `skipped_float_range`, never judged.
+    Exact cases (Fraction registry, untainted units, int/Fraction magnitude) are never skipped.
+  * to_preferred: the integer programme can take seconds for half-integer dimension vectors
+    (Gaussian units); they are kept out of the quick tier and sparse in the thorough tier.
   * witnesses never str()/repr() a Quantity or UnitsContainer of the Fraction registry (D4).
 """
 import math
@@ -536,6 +552,7 @@ class Monitor:
         self.ureg, self.reg, self.system = ureg, regname, system
         self.Q = ureg.Quantity
         self.UC = ureg.UnitsContainer
+        self.order_rng = random.Random((spec.get("seed", 0) if spec else 0) ^ 0xC15)
 
     # -- helpers ----------------------------------------------------------
     def mk(self, x, units):
@@ -547,8 +564,13 @@ class Monitor:
         return f"n={n};samedim={bool(self.o.mergeable_pairs(units))};tainted={tainted}"
 
     def fields(self, helper, clause, x, units, **kw):
-        f = dict(helper=helper, clause=clause, registry=self.reg, magnitude=type(x).__name__,
-                 shape=self.shape(units))
+        """classifier of a violation: mechanism-level only.  The structural clauses are
+        identified by helper / clause / registry (+ their own fields); the value-ish clauses
+        also carry the magnitude type and the unit shape (count, same-dimension pair, taint)."""
+        f = dict(helper=helper, clause=clause, registry=self.reg)
+        if clause in ("value", "dimension", "raised", "ito-differs", "units-differ"):
+            f["magnitude"] = type(x).__name__
+            f["shape"] = self.shape(units)
         f.update(kw)
         return f
 
@@ -614,9 +636,11 @@ class Monitor:
                 rec.observe("float_range_errors", f"{helper}:{name}")
                 return False, None
             shape = kw.pop("shape", None) or self.raise_shape(helper, units, name)
+            f = dict(self.fields(helper, "raised", x, units, error=name), shape=shape, **kw)
+            if not shape.startswith("n="):
+                f.pop("magnitude", None)          # a named mechanism: magnitude type is irrelevant
             rec.violation("helper-raised", self.witness(x, units, error=name, args=repr(ex.args)[:300],
-                                                        **(extra or {})),
-                          **dict(self.fields(helper, "raised", x, units, error=name), shape=shape, **kw))
+                                                        **(extra or {})), **f)
             return False, None
 
     def raise_shape(self, helper, units, errname):
@@ -767,13 +791,15 @@ class Monitor:
             rec.case((workload, self.reg, self.system if helper.endswith("base_units") else None,
                       helper, key_units, kinds, dec), nontrivial=changed)
 
-        if rootbase:
+        def do_root():
             q = self.mk(x, units)
             ok, r = self.call("to_root_units", q.to_root_units, x, units)
             if ok:
                 case("to_root_units", dict(r._units.items()) != units)
                 self.value("to_root_units", x, units, r)
                 self.twin("to_root_units", "ito_root_units", x, units, r)
+
+        def do_base():
             q = self.mk(x, units)
             ok, r = self.call("to_base_units", q.to_base_units, x, units, system=self.system)
             if ok:
@@ -788,7 +814,8 @@ class Monitor:
                                   self.witness(x, units, result_units=units_desc(runits), left=sorted(bad)),
                                   **self.fields("to_base_units", "system-base-unit-left", x, units,
                                                 system=self.system))
-        if reduced:
+
+        def do_reduced():
             q = self.mk(x, units)
             ok, r = self.call("to_reduced_units", q.to_reduced_units, x, units)
             if ok:
@@ -799,8 +826,15 @@ class Monitor:
                 self.value("to_reduced_units", x, units, r)
                 self.structure_reduced("to_reduced_units", x, units, runits)
                 self.twin("to_reduced_units", "ito_reduced_units", x, units, r)
-        if compact:
+
+        def do_compact():
             self.compact(x, self.items_of(units), dec, workload)
+
+        steps = ([do_root, do_base] if rootbase else []) + ([do_reduced] if reduced else []) + \
+            ([do_compact] if compact else [])
+        self.order_rng.shuffle(steps)         # the memo layers see the helpers in every order
+        for st in steps:
+            st()
 
     def items_of(self, units):
         """container -> [(name, prefix, base, exp)] as to_compact will read the names."""
